@@ -171,6 +171,7 @@ Plan sloppy_generate(uint64_t base, const std::string &prop, uint64_t index, int
     else if (dm < 65) p.max_depth = 255; else if (dm < 85) p.max_depth = std::min(255, need + (int)rd.below(3)); else p.max_depth = 1 + (int)rd.below(255);
     if (p.max_depth < need) p.faults.push_back("F6:max_depth_below_nesting");
     p.prefill = rd.chance(9, 10) ? (rd.next() | 1) : 0;
+    if (prop == "C09" || prop == "C16") p.prefill = rd.chance(1, 8) ? p.prefill : 0;
     // first call is always an init (nothing else is defined on an object that was never initialised)
     {
         int64_t len = -1; unsigned m = (unsigned)ro.below(40);
